@@ -75,6 +75,7 @@ type obsT struct {
 	OpenStreams int                 `json:"openStreams"`
 	Streams     int                 `json:"streams"`
 	Stable      bool                `json:"stable"` // both registered each other and see each other at the end
+	Settled     bool                `json:"settled"` // the observation was taken at rest
 	ShutDown    map[string]bool     `json:"shutDown"`
 	UserReg     map[string]bool     `json:"userReg"` // the user's last word for the peer's SKI was Register
 	Sent        map[string][]string `json:"sent"`
@@ -538,8 +539,9 @@ func runScript(s scriptT) obsT {
 	}
 	// quiescence: no event for 1.5 s and no registered connection in the middle of its handshake (its 10 s / 60 s timers
 	// are armed then and the library will still act)
-	for round := 0; round < 6; round++ {
-		settle(l, 1500*time.Millisecond, 15*time.Second)
+	settled := false
+	for round := 0; round < 8 && !settled; round++ {
+		quiet := settle(l, 1500*time.Millisecond, 15*time.Second)
 		busy := false
 		for name, n := range eth.nodes {
 			if c, ok := n.h.VerifRegistry()[skis[other[name]]]; ok {
@@ -557,13 +559,18 @@ func runScript(s scriptT) obsT {
 				}
 			}
 		}
-		if !busy {
+		if !busy && quiet {
+			settled = true
 			break
 		}
-		time.Sleep(2 * time.Second)
+		if busy {
+			time.Sleep(2 * time.Second)
+		}
 	}
-	l.add("", "Quiesced", "")
-	o := obsT{ID: s.ID, Script: s, Hubs: map[string]hubObs{}, ShutDown: shut, Sent: map[string][]string{},
+	// settled = false: the pair never came to rest within the budget (a loaded machine, or a library that keeps acting);
+	// such an observation is not a quiescent state and the monitor does not judge it as one
+	l.add("", "Quiesced", vh.B(settled))
+	o := obsT{ID: s.ID, Script: s, Settled: settled, Hubs: map[string]hubObs{}, ShutDown: shut, Sent: map[string][]string{},
 		UserReg: map[string]bool{"A": registered["A"], "B": registered["B"]}}
 	// echo: whatever each application writes now must arrive at the other one
 	before := map[string]int{}
@@ -639,15 +646,16 @@ func runScript(s scriptT) obsT {
 	return o
 }
 
-// settle waits until nothing was logged for `quiet`, at most `max`
-func settle(l *elog, quiet, max time.Duration) {
+// settle waits until nothing was logged for `quiet`, at most `max`; false = it never got quiet
+func settle(l *elog, quiet, max time.Duration) bool {
 	deadline := time.Now().Add(max)
 	for time.Now().Before(deadline) {
 		if l.quietFor() >= quiet {
-			return
+			return true
 		}
 		time.Sleep(50 * time.Millisecond)
 	}
+	return false
 }
 
 func main() {
